@@ -752,3 +752,76 @@ from Reduino.Actuators import Led, RGBLed, Servo, DCMotor
 from Reduino.Sensors import Button, Potentiometer
 mon = SerialMonitor(9600, "COM3")
 '''
+
+
+# ------------------------------------------------------------------ feature scripts (C06 / C14 / C16 / C17 inputs)
+FEATURE_HEADER = '''from Reduino import target
+target("COM3", upload=False)
+from Reduino.Communication import SerialMonitor
+from Reduino.Core import analog_read, digital_read, digital_write, analog_write, pin_mode, OUTPUT, INPUT, INPUT_PULLUP, HIGH, LOW
+from Reduino.Utils import sleep, map
+from Reduino.Actuators import Led, RGBLed, Servo, DCMotor, Buzzer
+from Reduino.Sensors import Button, Potentiometer, Ultrasonic
+from Reduino.Displays import LCD
+'''
+
+
+def feature_family() -> List[Tuple[str, str]]:
+    H = FEATURE_HEADER
+    M = 'mon = SerialMonitor(9600, "COM3")\n'
+    F: Dict[str, str] = {}
+    F["readme_led"] = H + 'led = Led(9)\nled.set_brightness(128)\nled.blink(200, times=3)\nsleep(500)\nled.off()\n'
+    F["readme_rgb"] = H + 'rgb = RGBLed(9, 10, 11)\nrgb.set_color(0, 128, 255)\nrgb.fade(255, 0, 0, duration_ms=1500)\nsleep(300)\nrgb.off()\n'
+    F["readme_buzzer"] = H + 'bz = Buzzer(8)\nbz.melody("startup")\nsleep(500)\nbz.beep(frequency=880, on_ms=100, off_ms=100, times=3)\nbz.stop()\n'
+    F["readme_servo"] = H + 's = Servo(9)\ns.write(90)\nsleep(500)\ns.write(0)\n'
+    F["readme_motor"] = H + 'motor = DCMotor(4, 5, 6)\nmotor.set_speed(0.4)\nmotor.run_for(1500, speed=1.0)\nmotor.ramp(-1.0, duration_ms=800)\nsleep(250)\nmotor.stop()\n'
+    F["readme_lcd_parallel"] = H + 'lcd = LCD(rs=12, en=11, d4=5, d5=4, d6=3, d7=2, backlight_pin=9)\nlcd.message("Setup complete", bottom="Waiting", top_align="center")\nlcd.progress(1, 30, max_value=100, width=12, label="Load")\nlcd.brightness(200)\n'
+    F["readme_lcd_i2c"] = H + 'panel = LCD(i2c_addr=0x27, cols=20, rows=4)\npanel.glyph(0, [0, 2, 5, 8, 8, 5, 2, 0])\npanel.line(0, "Ready to scroll", align="center")\npanel.animate("scroll", 2, "This text scrolls without blocking!", speed_ms=150, loop=True)\n'
+    F["readme_button"] = H + 'led = Led(6)\nbtn = Button(7)\nif btn.is_pressed():\n    led.toggle()\n'
+    F["readme_pot"] = H + M + 'pot = Potentiometer("A0")\nwhile True:\n    value = pot.read()\n    mon.write(value)\n'
+    F["readme_ultrasonic"] = H + 'u = Ultrasonic(trig=9, echo=10)\nd = u.measure_distance()\nprint(d)\nsleep(60)\n'
+    F["readme_map"] = H + 'mapped = map(512, 0, 1023, 0.0, 5.0)\nprint(mapped)\n'
+    F["readme_core"] = H + 'pin_mode(7, OUTPUT)\ndigital_write(7, HIGH)\nif digital_read(2) == HIGH:\n    digital_write(7, LOW)\n'
+    F["readme_swap"] = H + M + 'a = 1\nb = 2\na, b = b, a\nmon.write(a)\n'
+    F["readme_listcomp"] = H + M + 'squares = [i for i in range(10)]\nmon.write(len(squares))\nmon.write(squares[3])\n'
+    F["button_callback"] = H + 'led = Led(13)\ndef clicked():\n    led.toggle()\nbtn = Button(2, on_click=clicked)\nwhile True:\n    sleep(10)\n'
+    F["button_callback_serial"] = H + M + 'def clicked():\n    mon.write("click")\nbtn = Button(2, on_click=clicked)\nwhile True:\n    if btn.is_pressed():\n        mon.write("held")\n'
+    F["ultrasonic_loop"] = H + M + 'u = Ultrasonic(7, 8)\nwhile True:\n    d = u.measure_distance()\n    mon.write(d)\n    if d < 10:\n        mon.write("near")\n'
+    F["ultrasonic_in_fn"] = H + M + 'u = Ultrasonic(7, 8)\ndef near():\n    return u.measure_distance() < 10\nwhile True:\n    if near():\n        mon.write(1)\n'
+    F["buzzer_all"] = H + 'bz = Buzzer(8)\nwhile True:\n    bz.play_tone(440, 100)\n    bz.play_tone(220)\n    bz.stop()\n    bz.beep(880, on_ms=50, off_ms=50, times=2)\n    bz.sweep(200, 800, duration_ms=300, steps=4)\n    bz.melody("success")\n    bz.melody("alarm", tempo=300)\n'
+    F["buzzer_getters"] = H + M + 'bz = Buzzer(8)\nwhile True:\n    bz.play_tone(440)\n    mon.write(bz.get_frequency())\n    mon.write(bz.get_last_frequency())\n    mon.write(1 if bz.get_state() else 0)\n    bz.stop()\n'
+    F["lcd_all_parallel"] = H + 'lcd = LCD(12, 11, 5, 4, 3, 2, cols=16, rows=2, backlight_pin=9)\nwhile True:\n    lcd.write(0, 0, "hello")\n    lcd.line(1, "world", align="right")\n    lcd.message("a", "b")\n    lcd.clear()\n    lcd.display(False)\n    lcd.display(True)\n    lcd.backlight(False)\n    lcd.brightness(100)\n    lcd.glyph(1, [1, 2, 3, 4, 5, 6, 7, 8])\n    lcd.progress(0, 5, max_value=10)\n'
+    F["lcd_all_i2c"] = H + 'lcd = LCD(i2c_addr=0x3F, cols=16, rows=2)\nwhile True:\n    lcd.write(2, 1, "x", clear_row=False)\n    lcd.line(0, "centered", align="center")\n    lcd.backlight(True)\n    lcd.progress(1, 3, max_value=7, width=8, label="L", style="hash")\n'
+    F["lcd_runtime_text"] = H + 'lcd = LCD(i2c_addr=0x27)\nwhile True:\n    v = analog_read("A0")\n    lcd.line(0, f"v={v}")\n    lcd.progress(1, v, max_value=1023)\n'
+    F["lcd_animations"] = H + 'lcd = LCD(i2c_addr=0x27, cols=16, rows=2)\nlcd.animate("scroll", 0, "scrolling text", speed_ms=100, loop=True)\nlcd.animate("blink", 1, "blink", speed_ms=300)\nwhile True:\n    sleep(10)\n'
+    F["lcd_anim_types"] = H + 'lcd = LCD(12, 11, 5, 4, 3, 2)\nlcd.animate("typewriter", 0, "typing", speed_ms=50)\nlcd.animate("bounce", 1, "bounce", speed_ms=80, loop=True)\nwhile True:\n    sleep(5)\n'
+    F["two_lcds"] = H + 'a = LCD(12, 11, 5, 4, 3, 2)\nb = LCD(i2c_addr=0x27)\na.line(0, "par")\nb.line(0, "i2c")\n'
+    F["servo_two"] = H + 's1 = Servo(9)\ns2 = Servo(10, min_angle=10, max_angle=170)\nwhile True:\n    s1.write(20)\n    s2.write_us(1500)\n'
+    F["servo_in_loop_only"] = H + 'while True:\n    arm = Servo(9)\n    arm.write(90)\n'
+    F["everything"] = H + M + 'led = Led(13)\nrgb = RGBLed(3, 5, 6)\nbz = Buzzer(8)\ns = Servo(9)\nm = DCMotor(4, 7, 11)\npot = Potentiometer("A1")\nu = Ultrasonic(2, 10)\nwhile True:\n    v = pot.read()\n    led.set_brightness(v // 4)\n    rgb.set_color(v // 4, 0, 0)\n    s.write(v // 6)\n    m.set_speed(0.5)\n    mon.write(u.measure_distance())\n    bz.beep(440)\n'
+    F["try_except_plain"] = H + M + 'while True:\n    try:\n        mon.write(1)\n    except:\n        mon.write(2)\n'
+    F["try_except_named"] = H + M + 'while True:\n    try:\n        mon.write(1)\n    except ValueError:\n        mon.write(2)\n'
+    F["try_except_as"] = H + M + 'while True:\n    try:\n        mon.write(1)\n    except Exception as e:\n        mon.write(2)\n'
+    F["fn_before_use"] = H + M + 'def twice(v):\n    return v * 2\nwhile True:\n    mon.write(twice(3))\n'
+    F["fn_calls_fn_later"] = H + M + 'def outer(v):\n    return inner(v) + 1\ndef inner(v):\n    return v * 2\nwhile True:\n    mon.write(outer(3))\n'
+    F["fn_uses_ultrasonic"] = H + M + 'u = Ultrasonic(7, 8)\ndef dist():\n    return u.measure_distance()\nwhile True:\n    mon.write(dist())\n'
+    F["fn_str_param"] = H + M + 'def say(t):\n    mon.write(t)\nwhile True:\n    say("hi")\n'
+    F["fn_list_param"] = H + M + 'def first(xs):\n    return xs[0]\nwhile True:\n    mon.write(first([4, 5]))\n'
+    F["list_ops"] = H + M + 'xs = [1, 2, 3]\nys = []\nwhile True:\n    xs.append(4)\n    xs.remove(1)\n    ys.append(xs[0])\n    mon.write(len(ys))\n'
+    F["list_float"] = H + M + 'xs = [0.5, 1.5]\nwhile True:\n    mon.write(xs[1])\n'
+    F["list_str"] = H + M + 'names = ["a", "bc"]\nwhile True:\n    mon.write(names[1])\n    mon.write(len(names[1]))\n'
+    F["list_comp_expr"] = H + M + 'while True:\n    sq = [i * i for i in range(4)]\n    mon.write(sq[2])\n'
+    F["list_assign_copy"] = H + M + 'a = [1, 2]\nb = [3]\nwhile True:\n    b = a\n    mon.write(len(b))\n'
+    F["tuple_swaps_twice"] = H + M + 'a = 1\nb = 2\nwhile True:\n    a, b = b, a\n    a, b = b, a\n    mon.write(a)\n'
+    F["tuple_swaps_setup_twice"] = H + M + 'a = 1\nb = 2\na, b = b, a\na, b = b, a\nmon.write(a)\n'
+    F["pow_op"] = H + M + 'while True:\n    v = analog_read("A0")\n    mon.write(v ** 2)\n'
+    F["loop_var_after"] = H + M + 'while True:\n    for i in range(3):\n        mon.write(i)\n    mon.write(i)\n'
+    F["undeclared_receiver"] = H + M + 'while True:\n    ghost.on()\n'
+    F["get_mode_var"] = H + M + 'm = DCMotor(4, 7, 11)\nwhile True:\n    mode = m.get_mode()\n    mon.write(mode)\n'
+    F["strings_quotes"] = H + M + 'while True:\n    mon.write("say \\"hi\\"")\n    mon.write(\'single \\\' quote\')\n    mon.write("back\\\\slash")\n    mon.write("percent %d ?? /* */ //")\n'
+    F["strings_unicode"] = H + M + 'while True:\n    mon.write("Waiting\u2026 caf\u00e9")\n'
+    F["fstring_quotes"] = H + M + 'while True:\n    v = analog_read("A0")\n    mon.write(f"v=\\"{v}\\" ok")\n'
+    F["nested_fn_devices"] = H + 'led = Led(13)\nrgb = RGBLed(3, 5, 6)\ndef alert():\n    led.on()\n    rgb.set_color(255, 0, 0)\n    sleep(10)\n    led.off()\nwhile True:\n    alert()\n'
+    F["while_cond_call"] = H + M + 'pot = Potentiometer("A0")\nwhile True:\n    while pot.read() > 900:\n        mon.write("hi")\n    sleep(1)\n'
+    F["global_in_fn"] = H + M + 'count = 0\ndef bump():\n    global count\n    count += 1\nwhile True:\n    bump()\n    mon.write(count)\n'
+    return [(f"feature/{k}", v) for k, v in F.items()]
